@@ -2,7 +2,8 @@
 From Coq Require Import ZArith List Bool.
 From VF Require Import Async.Collector Async.CollectorProofs.
 From VF Require Import Async.StreamTypes Generated.RetryTable Async.Stream Async.StreamProofs Async.StreamProvenanceProofs
-  Async.StreamCancelProofs.
+  Async.StreamCancelProofs Async.StreamStateReplyProofs.
+From VF Require Import Async.Limiter Async.LimiterProofs.
 Import ListNotations.
 
 (* ---- Collector.collect_async: for every concurrency, budget, next_job oracle and completion schedule ---- *)
@@ -328,3 +329,118 @@ Example C20_stream_example_cancel_points :
   (let m' := mrun [] [] [] (evs ++ [Stop]) in
    obs_dones m' = [(4, 0, OCancelled); (4, 1, OCancelled)] /\ obs_cancels m' = [(4, 0); (4, 1)]).
 Proof. vm_compute. split; [eexists; split; reflexivity|]. repeat split; reflexivity. Qed.
+
+(* ---- the server's 'already exists / does not exist' replies ---- *)
+
+(* none of the replies about the existence of the program / job that make sense for the request they answer is raised: each
+   is answered by a right next request (JOB_ALREADY_EXISTS to either create request -> fetch the result;
+   PROGRAM_ALREADY_EXISTS to create-program-and-job -> fetch the result or create the job; JOB_DOES_NOT_EXIST to get-result ->
+   create; PROGRAM_DOES_NOT_EXIST to create-job -> create program and job) *)
+Theorem C20_state_reply_retry : forall r c, state_reply r c = true ->
+  exists r', retry c r = Some r' /\ right_next r c r' = true.
+Proof. exact state_reply_retry. Qed.
+Print Assumptions C20_state_reply_retry.
+
+(* the model server answers with nothing else *)
+Theorem C20_server_replies_sensible : forall w m m' c, serve_m w m = (m', MErr c) -> state_reply (wkind w) c = true.
+Proof. exact server_replies_sensible. Qed.
+Print Assumptions C20_server_replies_sensible.
+
+(* delivered to the execution that waits for it, such a reply makes that execution send a right next request in that step *)
+Theorem C20_state_reply_resent : forall pp pj fl evs k id c rest e x,
+  let m := mrun pp pj fl evs in
+  let m' := mrun pp pj fl (evs ++ [Respond k]) in
+  take_nth k (pending m) = Some ((id, MErr c), rest) -> waits m e id ->
+  nth_error (execs m) e = Some x -> state_reply (ecur x) c = true ->
+  exists r', right_next (ecur x) c r' = true /\ In (S (clock m), e, next_id m, r') (obs_reqs m').
+Proof. exact state_reply_resent. Qed.
+Print Assumptions C20_state_reply_resent.
+
+(* along every event sequence in which the server answers from its state (no arbitrary error codes): whatever the
+   interleaving of submits, stream failures, late handling of overtaken requests, cancellations and stop(), no submit ever
+   ends in a StreamError *)
+Theorem C20_honest_server_no_stream_error : forall pp pj fl evs, Forall honest evs ->
+  forall c0 e cd, ~ In (c0, e, ORaisedStream cd) (obs_dones (mrun pp pj fl evs)).
+Proof. exact honest_server_no_stream_error. Qed.
+Print Assumptions C20_honest_server_no_stream_error.
+
+(* non-vacuity: the job exists when the create-program-and-job request arrives (submitted before); the reply is outstanding,
+   its submitter waits, and after delivery and an undisturbed exchange the submitter has the existing job's result *)
+Example C20_stream_example_state_reply :
+  let evs := [Submit 0; Process 0] in
+  let m := mrun [] [0] [] evs in
+  Forall honest (evs ++ [Respond 0; Process 0; Respond 0]) /\
+  take_nth 0 (pending m) = Some ((0, MErr JOB_ALREADY_EXISTS), []) /\ waiting_on m 0 0 = true /\
+  state_reply CreateProgJob JOB_ALREADY_EXISTS = true /\
+  obs_reqs (mrun [] [0] [] (evs ++ [Respond 0])) = [(1, 0, 0, CreateProgJob); (3, 0, 1, GetResult)] /\
+  obs_dones (mrun [] [0] [] (evs ++ [Respond 0; Process 0; Respond 0])) = [(5, 0, OReturned (RResult 0))].
+Proof. vm_compute. repeat split; repeat constructor. Qed.
+
+(* ---- ProcessorSampler(max_concurrent_jobs): every run of callers, job creations, job completions and returns ---- *)
+
+(* never more unfinished jobs on the processor (and never more slots held) than max_concurrent_jobs, at every point of every
+   run in which no caller arrives while a released waiter has not resumed yet *)
+Theorem C20_limiter_bounded : forall cap tr s,
+  lrun cap tr = Some s -> calm cap tr = true -> unfinished s <= cap /\ length (l_holding s) <= cap.
+Proof. exact limiter_bounded. Qed.
+Print Assumptions C20_limiter_bounded.
+
+(* the hypothesis is needed (kept as a refutation of the unconditional statement; the witness is replayed on the
+   implementation by the check, stream sampler_race) *)
+Theorem C20_limiter_bounded_needs_calm : exists tr s,
+  lrun 1 tr = Some s /\ calm 1 tr = false /\ unfinished s = 2.
+Proof. exact limiter_bounded_needs_calm. Qed.
+Print Assumptions C20_limiter_bounded_needs_calm.
+
+(* every caller's job is created at most once, no job is created twice, every caller returns at most once - with the job
+   created for it and the outcome the engine produced for that job *)
+Theorem C20_limiter_exactly_once : forall cap tr s,
+  lrun cap tr = Some s ->
+  NoDup (map fst (creates_of tr)) /\ NoDup (map snd (creates_of tr)) /\
+  NoDup (map fst (returns_of tr)) /\
+  (forall i j, In (i, j) (returns_of tr) -> In (i, j) (creates_of tr)) /\
+  (forall i j ok, In (LReturn i j ok) tr -> In (j, ok) (finishes_of tr)).
+Proof. exact limiter_exactly_once. Qed.
+Print Assumptions C20_limiter_exactly_once.
+
+(* no caller is lost *)
+Theorem C20_limiter_no_loss : forall cap tr s,
+  lrun cap tr = Some s ->
+  l_calls s = length (l_waiting s) + length (l_woken s) + length (olist (l_entering s)) + length (l_holding s) +
+              length (l_returned s).
+Proof. exact limiter_no_loss. Qed.
+Print Assumptions C20_limiter_no_loss.
+
+(* no lost wake-up: nobody waits while a slot is free and not handed to a woken waiter *)
+Theorem C20_limiter_work_conserving : forall cap tr s,
+  lrun cap tr = Some s -> l_waiting s <> [] ->
+  cap <= length (l_holding s) + length (olist (l_entering s)) + length (l_woken s).
+Proof. exact limiter_work_conserving. Qed.
+Print Assumptions C20_limiter_work_conserving.
+
+Theorem C20_limiter_no_deadlock : forall cap tr s,
+  lrun cap tr = Some s -> 1 <= cap -> l_entering s = None -> l_holding s = [] -> l_woken s = [] -> l_waiting s = [].
+Proof. exact limiter_no_deadlock. Qed.
+Print Assumptions C20_limiter_no_deadlock.
+
+(* the run can always go on: a woken waiter can create its job, an unfinished job can finish, a caller whose job is finished
+   can return *)
+Theorem C20_limiter_enabled : forall cap s,
+  l_entering s = None ->
+  (forall w ws, l_woken s = w :: ws -> lstep cap s (LCreate w (l_jobs s)) <> None) /\
+  (forall j ok, has_job j (l_holding s) = true -> has_fin j (l_finished s) = false -> lstep cap s (LFinish j ok) <> None) /\
+  (forall i j ok, In (i, j) (l_holding s) -> In (j, ok) (l_finished s) -> lstep cap s (LReturn i j ok) <> None).
+Proof. exact limiter_enabled. Qed.
+Print Assumptions C20_limiter_enabled.
+
+(* non-vacuity: three callers under max_concurrent_jobs = 2, the third waits until a job finishes; the run is calm; then the
+   idle end state *)
+Example C20_limiter_example :
+  let tr := [LCall 0; LCreate 0 0; LCall 1; LCreate 1 1; LCall 2; LFinish 1 true; LReturn 1 1 true; LCreate 2 2] in
+  calm 2 tr = true /\
+  (exists s, lrun 2 [LCall 0; LCreate 0 0; LCall 1; LCreate 1 1; LCall 2] = Some s /\ l_waiting s = [2] /\ unfinished s = 2) /\
+  (exists s, lrun 2 tr = Some s /\ l_holding s = [(0, 0); (2, 2)] /\ l_returned s = [(1, 1)] /\ unfinished s = 2 /\
+             l_entering s = None) /\
+  (exists s, lrun 2 (tr ++ [LFinish 0 false; LFinish 2 true; LReturn 0 0 false; LReturn 2 2 true]) = Some s /\
+             l_entering s = None /\ l_holding s = [] /\ l_woken s = [] /\ l_calls s = 3).
+Proof. vm_compute. repeat split; eexists; repeat split; reflexivity. Qed.
